@@ -270,8 +270,10 @@ def write_evidence(prop, tier, seed, meta, agg, fresh, matched, findings, wall):
             'distinct_nontrivial': len(agg['sigs']),
             'rule': meta['rule'],
             'samples': samples,
-            'exhaustive': bool(meta.get('exhaustive_part')),
-            'exhaustive_note': meta.get('exhaustive_part', ''),
+            # the run as a whole is never exhaustive (it always contains sampled parts);
+            # the part that IS enumerated completely, with its bounds, is described in words
+            'exhaustive': False,
+            'exhaustively_enumerated_part': meta.get('exhaustive_part', 'none'),
             'signatures_total_counted': int(agg['all_sigs']),
             'observed': {
                 'add_calls_by_message_kind': per_kind,
